@@ -27,7 +27,8 @@ def exhaustive(tier):
 
 
 def required(tier):
-    return ["table_complete", "res%3==1", "res%3==2", "dist:thr", "dist:thr+1", "first_note_tap", "first_note_strum", "track_with_thousands_of_notes"]
+    return ["table_complete", "res%3==1", "res%3==2", "dist:thr", "dist:thr+1", "first_note_tap", "first_note_strum", "track_with_thousands_of_notes",
+            "tempo_segment_without_notes_between_two_notes"]
 
 
 def resolutions(tier, seed):
@@ -97,8 +98,18 @@ def run_table(rec, res: int, rng):
                 inst, diff = model.ALL_PAIRS[(model.ALL_PAIRS.index((inst, diff)) + 1) % 40]
             tracks[f"{inst}/{diff}"] = table_track(res, dist, tap, forced)
         # first-note cases: every combination as the only/first note, with and without tap
-        truth = {"resolution": res, "tempos": [[0, gen.usable_n(120000)], [max(1, 3 * dist), gen.usable_n(177500)]],
-                 "timesigs": [[0, 4, None]], "tracks": tracks}
+        # the tempo map is irrelevant to the rule and therefore busy: markers on note ticks, single markers between two notes, and
+        # (where two ticks fit) PAIRS of markers between two consecutive notes, i.e. tempo segments that contain no note at all
+        tempos = [[0, gen.usable_n(120000)], [max(1, 3 * dist), gen.usable_n(177500)]]
+        for k in range(1, 41):
+            base = (3 + 25 * k) * dist
+            if dist >= 3:
+                tempos += [[base + 1, gen.usable_n(90000 + 1500 * k)], [base + 2, gen.usable_n(200000 - 1100 * k)]]
+            else:
+                tempos += [[base, gen.usable_n(90000 + 1500 * k)], [base + dist, gen.usable_n(200000 - 1100 * k)]]
+        truth = {"resolution": res, "tempos": tempos, "timesigs": [[0, 4, None]], "tracks": tracks}
+        if dist >= 3:
+            rec.cls("tempo_segment_without_notes_between_two_notes")
         case = gen.render_truth(truth, rng, permute_groups=True)
         out, ob, d = mcheck.judge(rec, ("C04",), case)
         if d is not None and not d.of("C04"):
@@ -139,7 +150,7 @@ def run_shard(shard, rec, tier, seed):
         for i in range(shard["count"]):
             rng = harness.rng_for(seed, ID, shard["name"], i)
             case = gen.gen_chart(rng, "hostile" if i % 2 else "realistic", n_tracks=rng.choice([1, 2]),
-                                 n_groups=rng.choice([2, 10, 60, 200]) if i % 20 != 1 else rng.choice([3000, 4500, 9000]), n_globals=0, n_tempos=2)
+                                 n_groups=rng.choice([2, 10, 60, 200]) if i % 20 != 1 else rng.choice([3000, 4500, 9000]), n_globals=0, n_tempos=rng.choice([1, 2, 2, 9, 40]))
             if i % 20 == 1:
                 rec.cls("track_with_thousands_of_notes")
             out, ob, d = mcheck.judge(rec, ("C04",), case)
